@@ -54,6 +54,12 @@ UWorkerNum(r) ==
   /\ ist = "initialized"
   /\ bad' = IF r < 0 \/ r >= nw THEN Fail("C15: reported worker index outside [0, workers)") ELSE bad
   /\ UNCHANGED <<ist, req, nw, started, exited, gens>>
+\* C10 across initialisations: a freshly initialised library hands out exactly NKEYS pairwise distinct keys
+NKEYS == 1024
+UKeysExhausted(n, distinct) ==
+  /\ ist = "initialized"
+  /\ bad' = IF n # NKEYS \/ distinct # 1 THEN Fail("C10: a fresh initialisation does not hand out exactly 1024 pairwise distinct keys") ELSE bad
+  /\ UNCHANGED <<ist, req, nw, started, exited, gens>>
 FiniBegin == ist = "initialized" /\ ist' = "finalizing" /\ UNCHANGED <<req, nw, started, exited, gens, bad>>
 WorkerExit(r) ==
   /\ ist = "finalizing"
